@@ -323,4 +323,34 @@ theorem upBits_val (b : Nat) (hb : b < 2 ^ 32) (hfin : b / 2 ^ 23 % 2 ^ 8 ≠ 25
     push_cast
     ring
 
+theorem up_unpack (x : Float32) (h : x.isFinite = true) :
+    (Cvt.up x : Float).toModel.unpack = FM.unpackNat 52 11 (upBits x.toBits.toNat) ∧
+    upBits x.toBits.toNat / 2 ^ 52 % 2 ^ 11 ≠ 2047 := by
+  have hb := x.toBits.toNat_lt
+  obtain ⟨hf, _⟩ := toRat32_bits' x h
+  obtain ⟨h1, _, _⟩ := upBits_val _ hb hf
+  obtain ⟨hlt, _⟩ := FB.upBits_spec _ hb
+  have hnn : upBits x.toBits.toNat % 2 ^ 63 ≤ 0x7FF0000000000000 := by
+    generalize upBits x.toBits.toNat = u at *
+    omega
+  have ht : (UInt64.ofNat (upBits x.toBits.toNat)).toNat = upBits x.toBits.toNat := by
+    rw [UInt64.toNat_ofNat', Nat.mod_eq_of_lt hlt]
+  refine ⟨?_, h1⟩
+  rw [FB.up_eq, FM.float_unpack_ofBits _ (by rw [ht]; exact hnn), ht]
+
+/-- **`f64::from(x)` of a finite `f32` is finite.** -/
+theorem up_finite (x : Float32) (h : x.isFinite = true) : (Cvt.up x : Float).isFinite = true := by
+  obtain ⟨hun, h1⟩ := up_unpack x h
+  show (Cvt.up x : Float).toModel.unpack.isFinite = true
+  rw [hun, unpackNat_isFinite]; exact h1
+
+/-- **`f32 → f64` is exact**: `toRat (f64::from(x)) = toRat32 x` for every finite `x` (zeros, subnormals, normals). -/
+theorem toRat_up (x : Float32) (h : x.isFinite = true) : toRat (Cvt.up x : Float) = toRat32 x := by
+  have hb := x.toBits.toNat_lt
+  obtain ⟨hf, hv⟩ := toRat32_bits' x h
+  obtain ⟨h1, h2, h3⟩ := upBits_val _ hb hf
+  obtain ⟨hun, _⟩ := up_unpack x h
+  unfold toRat
+  rw [hun, uval_unpackNat64 _ h1, hv, h2, mul_assoc, h3, ← mul_assoc]
+
 end Rosu.FErr
